@@ -67,7 +67,7 @@ func (v ReceiverValidator) Validate() (diagnostics.EntityDiagnostic, error) {
 	}
 	receiverDiag.AddDiagnosticIfNotNil(secDiag)
 
-	linkValidator, err := NewAnnotationLinkValidator(v.receiver)
+	linkValidator, err := NewAnnotationLinkValidatorForController(v.parentController, v.receiver)
 	if err != nil {
 		return receiverDiag, fmt.Errorf("failed to construct an annotation link validator - %v", err)
 	}
